@@ -492,7 +492,7 @@ def e_tail_edit(d, r, lit):
 
 def e_extremes(d, r, lit):
     """Sizes and characters at the edges: deep nesting, long lists, long / odd strings."""
-    kind = r.choice(["deep", "wide", "longdoc", "oddname", "oddstrings"])
+    kind = r.choice(["deep", "deep_or", "wide", "longdoc", "oddname", "oddstrings"])
     names = decl_names(d)
     if kind == "deep":
         t: Dict[str, Any] = {"kind": "base", "name": "string"}
@@ -501,6 +501,12 @@ def e_extremes(d, r, lit):
         for i in range(r.choice([12, 40, 80])):
             t = {"kind": "array", "element": t} if i % 4 else {"kind": "map", "key": {"kind": "base", "name": "string"}, "value": t}
         d["typeAliases"].append({"name": _fresh(r, "EvoDeep"), "type": t})
+    elif kind == "deep_or":
+        # or/and/tuple nested 4-6 deep (jsonschema is exponential here, so no deeper)
+        t2: Dict[str, Any] = {"kind": "reference", "name": r.choice(names) if names else "X"}
+        for i in range(r.choice([4, 5, 6])):
+            t2 = {"kind": r.choice(["or", "or", "and", "tuple"]), "items": [{"kind": "base", "name": r.choice(BASE_NAMES)}, t2] if i % 2 else [t2, {"kind": "stringLiteral", "value": f"lvl{i}"}]}
+        d["typeAliases"].append({"name": _fresh(r, "EvoDeepOr"), "type": t2})
     elif kind == "wide":
         n = r.choice([300, 1500])
         d["structures"].append({"name": _fresh(r, "EvoWide"), "properties": [{"name": f"p{i}", "type": {"kind": "base", "name": "string"}, **({"optional": True} if i % 7 == 0 else {})} for i in range(n)]})
